@@ -2,7 +2,8 @@
 Code: ncclient/transport/parser.py DefaultXMLParser.parse/_parse10/_parse11, session.py Session.run, the three
 _transport_read primitives.  Model: coq/Model/Framing10.v, Framing11.v, Utf8.v; reference automata and encoders:
 coq/Spec/RefFraming.v; theorems: coq/Props/C01.v; runner protocol: coq/Glue/FramingGlue.v.
-Harness: tools/harness/framing.py (ParserRig, oracle10/oracle11, generators, SessionRig)."""
+Harness: tools/harness/framing.py (ParserRig, oracle10/oracle11, generators, SessionRig); tools/harness/c01_peers.py (scripted
+servers behind the real TLS / SSH / Unix transports, recording session subclasses)."""
 import os, json, glob, itertools
 
 ID = 'C01'
@@ -18,16 +19,38 @@ RULE = ('Parser level: (message list, chunking (1.1), segmentation) triples, bot
         'position / pending chunk octets), on the reference automaton (streams <= 3000 octets), and judged by the property '
         'oracle: delivered == sent (1.0: stripped), once, in order, each during the segment that carries the last octet of '
         'its terminator (not earlier, not later), no exception. Session level: the real UnixSocketSession worker thread over a '
-        'socketpair, oracle only. Also: constant/shape tie read from the source files with ast, and the model of '
+        'socketpair, oracle only. Peer level (all three transports; quick 16+16+8 connections, thorough 300+300+80): a scripted server '
+        'behind the REAL transport - TLSSession.connect to an ssl server on 127.0.0.1 (own CA), SSHSession.connect(sock=) to an '
+        'in-process paramiko server over a socketpair, UnixSocketSession over a socketpair - real hello exchange (server hello '
+        'advertising base:1.1 for 1.1 cases), then the stream of 1-5 XML messages (tiny, ASCII, 2/3/4-byte characters, white space '
+        'around the document element, chunk-header/delimiter look-alikes, multi-read up to 40 kB; 1.1: single/size-1/uniform/random/'
+        'adversarial chunkings) is written in generated pieces (whole, random, size 1, 4096, > 4096 = several reads per TLS record / '
+        'SSH packet, adversarial around delimiters and inside characters, around every terminator) with a pause, nothing, or a wait '
+        'until the client has read everything after each piece; before the last octet of about half of the terminators the server '
+        'waits until everything written was read, then 30 ms, and notes how many messages the listener has. The session class is '
+        'subclassed to record the octets of every _transport_read (histograms peer_read_octets_*), the parser state at the entry of '
+        'the next read and the read during which each message was dispatched. Oracle: listener got exactly the sent texts (1.0: '
+        'stripped), once, in order, with the right root; nothing delivered at a hold; every written octet read within 2 s (no stall); '
+        'octets read == octets written; each dispatch during the read that carried the last octet of its terminator; no errback; '
+        'thread gone after close(). The recorded reads are then fed to the extracted model (feed10/feed11): same deliveries read '
+        'by read and same parser state (1.0 streams above ~8 kB only within a time budget: the extracted 1.0 model is cubic). A '
+        'failing peer case is re-executed 3 times and reported only if it fails every time. Also: constant/shape tie read from the source files with ast, and the model of '
         'str.strip / strict UTF-8 validity against CPython. A case is (base, segment list); distinct = distinct (base, '
         'segments); non-trivial = at least one message and (>= 2 segments or a message in >= 2 chunks).')
 ASSUMES = ['CPython bytes.find/partition/strip, str.strip, bytes.decode("utf-8") and re.match/fullmatch on the two literal patterns '
            'behave as modelled in Model/Utf8.v, Framing10.v, Framing11.v; validated by every case and by the strip/validity micro-suite',
-           'the transport delivers the octets in order (select, kernel / paramiko / OpenSSL); each read returns at most BUF_SIZE octets - '
+           'the transport delivers the octets in order (select, kernel / paramiko / OpenSSL) - exercised, not proved, by the peer level; '
+           'a read returns at most BUF_SIZE octets on SSH/Unix and at most one TLS record (16384) on TLS since the repair of F24 - '
            'the theorems hold for every segment size',
+           'which read boundaries TLS/SSH produce cannot be forced from outside: the peer level records the boundaries that occurred '
+           '(evidence: peer_read_octets_*), the theorems and the parser level cover all of them',
            'listeners are reached through Session._dispatch_message (C14/C03 cover what it does with the text)']
 TRUSTED = ['modelled, not verified: CPython bytes/str/re built-ins used by parser.py',
-           'tools/harness/framing.py: ParserRig stands in for Session (same attributes the parser touches: _buffer, _message_list, _base, parser, _dispatch_message)']
+           'tools/harness/framing.py: ParserRig stands in for Session (same attributes the parser touches: _buffer, _message_list, _base, parser, _dispatch_message)',
+           'tools/harness/c01_peers.py (scripted TLS/SSH/Unix servers, recording subclasses wrapping _transport_read/_dispatch_message/_transport_write), '
+           'tools/harness/c12_peers.py (openssl-CLI certificates, paramiko host key); OpenSSL, paramiko 5.0.0 and the loopback stack are the peers, not verified',
+           'peer-level timing: "not delivered before the terminator" is asserted after the client has read every written octet plus 30 ms; '
+           'stall = a written octet unread after 2 s; deliveries awaited up to 5 s']
 ALLOWED_AXIOMS = []
 
 RE_DELIM = b'\\n(?:#([0-9]+)|(##))\\n'
@@ -364,6 +387,10 @@ PEER_WITNESSES = [       # fixed cases run first on every transport: F24 (a piec
     dict(base=10, msgs=['<rpc-reply message-id="1"><data>%s</data></rpc-reply>' % ('x\u00e9' * 2100), '<ok/>'], chunks=None, cut='whole', actions='s'),
     dict(base=11, msgs=['<a>\u00e9\U0001F600</a>', '<rpc-reply message-id="2"><data>%s</data></rpc-reply>' % ('\u20acy' * 1800)],
          chunks=[[b'<a>\xc3', b'\xa9\xf0\x9f', b'\x98\x80</a>'], None], cut='holds', actions=None),
+    # 1.1 text is delivered intact, white space around the document element included; 1.0 modulo str.strip
+    dict(base=11, msgs=['\n<rpc-reply message-id="1"><ok/></rpc-reply> \n', ' <b>y\u00a0</b>\n\n'], chunks=[[b'\n', b'<rpc-reply message-id="1"><ok/></rpc-reply>', b' \n'], None],
+         cut='holds', actions=None),
+    dict(base=10, msgs=['\n<rpc-reply message-id="1"><ok/></rpc-reply> \n', ' <b>y\u00a0</b>\n\n'], chunks=None, cut='holds', actions=None),
 ]
 
 def peer_witness_case(w, kind):
@@ -440,12 +467,13 @@ def peers_level(ctx):
     # (the extracted 1.0 model is cubic in the message length - 0.6 s at 8 kB, 4 s at 16 kB, 26 s at 32 kB: long 1.0 streams are fed
     # to it only up to a budget; every case is still judged by the oracle above)
     if ctx.model and done:
-        budget, fed = (4.0 if quick else 60.0), []
-        for c, o in done:
-            n = sum(len(r) for r in o['reads'])
-            cost = 0.0 if c['base'] == 11 or n < 3000 else (n / 8000.0) ** 3 * 0.7
-            if cost > budget: continue
-            budget -= cost; fed.append((c, o))
+        budget, fed = (4.0 if quick else 150.0), []
+        def cost(co):
+            n = sum(len(r) for r in co[1]['reads'])
+            return 0.0 if co[0]['base'] == 11 or n < 3000 else (n / 8000.0) ** 3 * 0.7
+        for co in sorted(done, key=cost):           # cheapest first: as many cases as the budget allows
+            if cost(co) > budget: break
+            budget -= cost(co); fed.append(co)
         ctx.extra['peer_cases_not_fed_to_model'] = len(done) - len(fed)
         done = fed
         outs = ctx.model.batch([[1 if c['base'] == 10 else 2, o['reads']] for c, o in done])
@@ -520,6 +548,8 @@ def search(ctx, seeds):
 def reproduce(finding):
     w = finding['witness']
     from vlib import paths; paths.use_repo()
+    if w.get('level') == 'peer':
+        return not peer_exec(w)[0]
     ok = F().judge(w['base'], [bytes.fromhex(h) for h in w['segs']])[0]
     return not ok
 
